@@ -31,3 +31,13 @@ Example C12_nonvacuous :
   ho_timeline (hb_model (3, [EStart 0; ERead 1535; EWait 4608]))
   = [TStart 0; TRead 1535; THeartbeat 1536; THeartbeat 3072; THeartbeat 4608; TDead 4608].
 Proof. exact hb_nonvacuous. Qed.
+
+(* ---------- after close no further heartbeats ---------- *)
+From AV Require Import Model.Src Gen.GenSrc Model.SrcShape.
+(* read off the source on every run: stop() clears the run flag and then takes the heartbeat
+   lock; the periodic check sends its heartbeat under that lock after looking at the flag
+   again - so once stop() has returned (close() calls it before it writes Connection.Close)
+   no heartbeat is sent; a new timer is created only under the same lock after the same test *)
+Theorem C12_source_heartbeat_discipline : heartbeat_shape_ok = true.
+Proof. vm_compute. reflexivity. Qed.
+Print Assumptions C12_source_heartbeat_discipline.
